@@ -216,6 +216,9 @@ namespace sim
 	void http_proxy::on_domain_lookup(boost::system::error_code const& ec
 		, const asio::ip::tcp::resolver::results_type ips)
 	{
+		// the client this lookup was made for is gone (close_connection())
+		if (ec == asio::error::operation_aborted) return;
+
 		if (ec || ips.empty())
 		{
 			if (ec)
@@ -345,6 +348,8 @@ namespace sim
 	void http_proxy::close_connection()
 	{
 		m_connecting_to_server = false;
+		// a lookup still in progress belongs to the client that is going away
+		m_resolver.cancel();
 		m_num_client_in_bytes = 0;
 		m_num_server_out_bytes = 0;
 		m_num_in_bytes = 0;
